@@ -132,11 +132,34 @@ pub fn build_command(root: &Path, cfg: &Config) -> MosResult<()> {
     bw.write_banks(banks, &target_dir, &filename)?;
 
     if cfg.build.listing {
-        for (source_path, contents) in
-            to_listing(&generated_code, cfg.formatting.listing.num_bytes_per_line)?
-        {
-            let listing_path =
-                format!("{}.lst", source_path.file_stem().unwrap().to_string_lossy());
+        let listings = to_listing(&generated_code, cfg.formatting.listing.num_bytes_per_line)?;
+
+        // Source files in different directories may have the same name. Their listings would overwrite each other,
+        // so in that case the directory becomes part of the name of the listing.
+        let stem = |path: &Path| path.file_stem().unwrap().to_string_lossy().to_string();
+        let mut sources: Vec<PathBuf> = listings.keys().cloned().collect();
+        sources.sort();
+        for (source_path, contents) in listings.iter().map(|(k, v)| (k.clone(), v.clone())) {
+            let is_unique = sources
+                .iter()
+                .filter(|other| stem(other.as_path()) == stem(&source_path))
+                .count()
+                == 1;
+            let listing_path = if is_unique {
+                format!("{}.lst", stem(&source_path))
+            } else {
+                let relative = source_path
+                    .strip_prefix(root)
+                    .unwrap_or(&source_path)
+                    .with_extension("");
+                let name = relative
+                    .components()
+                    .map(|c| c.as_os_str().to_string_lossy().to_string())
+                    .filter(|c| c != "/" && c != ".")
+                    .collect::<Vec<_>>()
+                    .join("_");
+                format!("{}.lst", name)
+            };
             let mut out = fs::File::create(target_dir.join(listing_path)).map_err(map_io_error)?;
             out.write_all(contents.as_bytes()).map_err(map_io_error)?;
         }
